@@ -24,7 +24,7 @@ Definition parrQ : parser (arr QS) :=
 Definition earrQ (a : arr QS) : list Z := nr a :: nc a :: flat_map eQ (tabulate a).
 Definition pcrd : parser (option unit) := b <- pbool ;; pret (if b then Some tt else None).
 
-Definition run (inp : list Z) : list Z :=
+Definition run1 (inp : list Z) : list Z :=
   match inp with
   | op :: rest =>
     if op =? 1 then
@@ -47,6 +47,36 @@ Definition run (inp : list Z) : list Z :=
       | None => emalformed end
     else emalformed
   | _ => emalformed
+  end.
+
+(* op 4: a history of calls in one case:  4 :: n :: (len_1 :: call_1) ... (len_n :: call_n).  The model is a
+   pure function, so every call of a history is answered as if it were the first one in a fresh process;
+   the answer is  0 :: n :: (len_1 :: answer_1) ... *)
+Fixpoint run_batch (n : nat) (l : list Z) : option (list Z) :=
+  match n with
+  | O => match l with [] => Some [] | _ => None end
+  | Datatypes.S n' =>
+      match l with
+      | len :: rest =>
+          if len <? 0 then None else
+          let k := Z.to_nat len in
+          if Nat.ltb (length rest) k then None else
+          let out := run1 (firstn k rest) in
+          match run_batch n' (skipn k rest) with
+          | Some o => Some (Z.of_nat (length out) :: out ++ o)
+          | None => None end
+      | [] => None
+      end
+  end.
+
+Definition run (inp : list Z) : list Z :=
+  match inp with
+  | op :: n :: rest =>
+      if op =? 4 then
+        if n <? 0 then emalformed else
+        match run_batch (Z.to_nat n) rest with Some o => 0 :: n :: o | None => emalformed end
+      else run1 inp
+  | _ => run1 inp
   end.
 
 Extraction "extracted/run_c12.ml" run.
